@@ -64,7 +64,7 @@ def runC32 (arg : String) : String :=
   | _ => "bad-op"
 
 /-! `c33 <keep> <t0secs> <t0nanos>|<step>;<step>;…` with `step = <o|r|f|F> <secs> <nanos> <ids|->`
-(`F` = a fatal failure provoked for real). Reply: one record per step, `;`-separated:
+(`F` = a fatal failure provoked for real, `I` = a real initial-mode run failing retryably). Reply: one record per step, `;`-separated:
 `ok=<0|1> cur=<ids|none> ser=<n> ses=<n> cr=<secs.nanos|none> d=<target serials of the retained deltas, newest first|-> n=<notifications> done=<secs.nanos|none>`. -/
 
 def showTime (t : Time) : String := s!"{t.secs}.{t.nanos}"
@@ -87,6 +87,7 @@ def parseStep (s : String) : Option RunStep :=
       | "r" => some Outcome.retry
       | "f" => some Outcome.fatal
       | "F" => some Outcome.fatal
+      | "I" => some Outcome.retry
       | _ => none
     let secs ← secs.toNat?
     let nanos ← nanos.toNat?
